@@ -89,6 +89,11 @@ func GetMultihash(encodedMultihash string) (*multihash.DecodedMultihash, error) 
 		return nil, err
 	}
 
+	// the decoder skips line breaks and ignores unused trailing bits: only the canonical text denotes the multihash
+	if encoder.EncodeToString(multihashBytes) != encodedMultihash {
+		return nil, errors.New("multihash is not canonically encoded")
+	}
+
 	return multihash.Decode(multihashBytes)
 }
 
